@@ -28,15 +28,19 @@ TIERS = {
 }
 
 RULE = ("One run = one seeded history of 5..max_ops operations in one interpreter over a pool of caller-owned containers (lists, numpy "
-        "arrays, dicts, name-lists + valueof) that are REUSED across the calls, with deliberate collisions (same names / different values, "
-        "same values / different names, equal lists in distinct objects). Operations: call of any partitioning / packing / covering "
-        "algorithm through prtpy.partition / prtpy.pack with any output type; verbatim repeat of an earlier operation; failed calls "
-        "(natural refusals, valueof raising at its k-th invocation, simulated clock cut-off for complete greedy / CBLDM, simulated solver "
-        "status or exception for ILP, CKK generator abandoned after j yields). After every operation every container of the pool is "
-        "compared with its pristine copy, and the canonicalised outcome (value incl. types, or exception type) is compared with the "
-        "outcome of the same operation executed alone in a fresh forked interpreter. evaluations = operations executed inside histories "
-        "and compared with a fresh-fork reference. A history is non-trivial when at least one operation follows a failed call or re-uses a "
-        "container that an earlier call has already been given; distinct = distinct plans among those.")
+        "arrays, dicts, name-lists + valueof; integers or exactly representable fractions) that are REUSED across the calls, with deliberate "
+        "collisions (same names / different values, same values / different names, equal lists in distinct objects). Operations: call of any "
+        "partitioning / packing / covering algorithm through prtpy.partition / prtpy.pack with any output type, or directly with a caller-owned "
+        "bins-manager that is re-used; verbatim repeat of an earlier operation; the caller editing one of its containers, or an object an earlier "
+        "call returned, between two calls; failed calls (natural refusals; valueof raising an ordinary error / KeyError / MemoryError / "
+        "KeyboardInterrupt anywhere, late, at its last or its first evaluation; simulated clock cut-off or an interrupt at a clock reading for "
+        "complete greedy / CBLDM; simulated solver status, exception, time-out or read-back noise for ILP; CKK generator abandoned, closed or "
+        "thrown into after j yields); retries of failed calls with a changed size parameter; 'retry storm' histories. After every operation every "
+        "container of the pool (and every option list handed over) is compared with its pristine copy, and the canonicalised outcome (value "
+        "incl. types, or exception type) is compared with the outcome of the same operation executed alone in a fresh forked interpreter. "
+        "evaluations = operations executed inside histories and compared with a fresh-fork reference. A history is non-trivial when at least one "
+        "operation follows a failed call or a caller edit / scribble, or re-uses a container that an earlier call has already been given; "
+        "distinct = distinct plans among those.")
 
 ASSUMPTIONS = [
     "fresh state = prtpy imported but never called; third-party libraries (numpy, python-mip, CBC) loaded and warmed up: state they keep is outside prtpy and outside the property",
@@ -49,8 +53,10 @@ ASSUMPTIONS = [
 COMPONENTS = {
     "real": ["every algorithm in prtpy.partitioning / prtpy.packing / prtpy.covering via prtpy.partition / prtpy.pack", "all output types",
              "both bins-managers", "objectives", "python-mip + CBC (real solves in mode 'real')", "numpy"],
-    "simulated": ["clock (SimClock, global and monotone over the whole history)", "valueof failures (FaultyValueOf)",
-                  "solver verdict / exceptions (SimSolver at mip.Model.optimize)", "generator consumer", "process state: one fork per history, one fresh fork per reference call"],
+    "simulated": ["clock (SimClock, global and monotone over the whole history; can deliver an interrupt at a reading)", "valueof failures (FaultyValueOf: 4 exception kinds)",
+                  "solver verdict / exceptions (SimSolver at mip.Model.optimize) and solution read-back noise (mip.Var.x)", "generator consumer (abandon / close / throw)",
+                  "the caller (order of calls, edits of its containers and of returned objects, retries)", "logging level of the prtpy.* loggers (LogSeam)",
+                  "process state: one fork per history, one fresh fork per reference call"],
     "stubbed": ["CBC is not run at all in solver mode 'stub_status' / 'raise'"],
 }
 
@@ -840,6 +846,7 @@ def execute(plan, seed=0):
         if rec.get("edit"):
             tr.add("edit", i=i, op=ops[i])
             res.probe("caller_edited_container_between_calls")
+            nontrivial = True
             if prev_kind is not None:
                 res.cells.append("@pair:" + prev_kind + ">edit")
             prev_kind = "edit"
